@@ -117,6 +117,9 @@ def run(ctx):
             if not it["tie_zone"] and int(o["idx_max"]) != it["idx_max"]:
                 res.corr_diff("idx_max", f"model idx_max {o['idx_max']} vs oracle {it['idx_max']} | {it['desc']}", it["cmd"])
             w = len(it["impl"])
+            if len(o["vals"]) != w:
+                res.corr_diff("window_values", f"implementation delivers {w} window entries, the Lean model {len(o['vals'])} | {it['desc']}", it["cmd"])
+                continue
             rows = range(w) if (it["in_range"] and not it["tie_zone"]) else [w - 1]
             for j in rows:
                 if not common.close(o["vals"][j], it["impl"][j], 0.0, it["tol"]):
